@@ -26,13 +26,16 @@ CONSTANTS Programs      \* the abstract programs to explore (records, see MCMatc
 
 \* The struct table of the world, without blank members: a member called _ can be neither read nor
 \* assigned, so for the walk below it does not exist (model/util.go IterateStructFields).
+\* Whether a member can be referred to from the generated package is a property of the MEMBER (vis: it is
+\* exported, or declared in the setup file's own package) - not of the struct type it is reached through: a local
+\* type defined over an imported struct, or an unnamed struct inside an imported type, still has foreign members.
 WS == [t \in DOMAIN WStructs |-> [WStructs[t] EXCEPT !.fs = SelectSeq(@, LAMBDA f : f.n # "_")]]
 
 (* program: [dst, src : root struct ids; args : seq of type ids (additional arguments);
              retErr : BOOLEAN; o : [case, getter, stringer, typecast : BOOLEAN, rule : "name"|"none"];
              notes : seq of notations]
    notation: [k : "skip"|"map"|"conv"|"lit", dst : seq of names,
-              pk : "exact"|"prefix"|"suffix"          (skip only),
+              pk : "exact"|"prefix"|"suffix"|"tail"   (skip only),
               src : seq of [n : name, call : BOOLEAN, arg : 0 = source operand / i>=1 = additional argument i, first step only],
               fn : converter name, text : literal text] *)
 
@@ -70,11 +73,14 @@ O == prog.o
 
 ----------------------------------------------------------------------------
 (* :skip patterns (their regular-expression semantics proper is C19's; here: exact path,
-   "^P\." prefix and "(^|\.)X$" suffix forms, compared under the method's case rule) *)
+   "^P\." prefix, "(^|\.)X$" suffix and "X$" tail forms, compared under the method's case rule) *)
 SkipMatches(n, p) ==
   CASE n.pk = "exact"  -> PathEq(n.dst, p, O.case)
     [] n.pk = "prefix" -> Len(p) > Len(n.dst) /\ PathEq(n.dst, SubSeq(p, 1, Len(n.dst)), O.case)
     [] n.pk = "suffix" -> Len(p) >= 1 /\ NameEq(n.dst[1], p[Len(p)], O.case)
+    \* "X$": a regular expression without a dot in its text that nevertheless reaches nested members (the world has
+    \* no other name ending in that text, which the harness asserts)
+    [] n.pk = "tail"   -> Len(p) >= 1 /\ NameEq(n.dst[1], p[Len(p)], O.case)
 ShouldSkip(p) == \E i \in NoteIdx : Notes[i].k = "skip" /\ SkipMatches(Notes[i], p)
 
 \* explicit (non-skip) notations naming path p exactly; these always compare case-sensitively
@@ -85,7 +91,7 @@ RECURSIVE PathsBelow(_, _, _)
 PathsBelow(p, t, depth) ==
   IF ~IsStructId(t) \/ depth = 0 THEN {}
   ELSE UNION {{Append(p, WS[t].fs[i].n)} \cup PathsBelow(Append(p, WS[t].fs[i].n), WS[t].fs[i].t, depth - 1)
-              : i \in {j \in DOMAIN WS[t].fs : ~WS[t].ext \/ WS[t].fs[j].ex}}
+              : i \in {j \in DOMAIN WS[t].fs : WS[t].fs[j].vis}}
 \* does some notation address an existing path strictly below p?
 AddressedBelow(p, t) ==
   \E q \in PathsBelow(p, t, 3) : ShouldSkip(q) \/ ExplicitAt(q) # {}
@@ -118,20 +124,20 @@ FieldIn(t, name) ==
   LET s == WS[t]
       direct == {i \in DOMAIN s.fs : s.fs[i].n = name} IN
   IF direct # {} THEN LET i == CHOOSE i \in direct : TRUE IN
-                        [ok |-> ~s.ext \/ s.fs[i].ex, t |-> s.fs[i].t]
+                        [ok |-> s.fs[i].vis, t |-> s.fs[i].t]
   ELSE LET embs == {i \in DOMAIN s.fs : s.fs[i].emb /\ IsStructId(Deref(s.fs[i].t))
                                          /\ \E j \in DOMAIN WS[Deref(s.fs[i].t)].fs : WS[Deref(s.fs[i].t)].fs[j].n = name} IN
        IF embs = {} THEN [ok |-> FALSE, t |-> "NONE"]
        ELSE LET i == CHOOSE i \in embs : TRUE
                 et == Deref(s.fs[i].t)
                 j == CHOOSE j \in DOMAIN WS[et].fs : WS[et].fs[j].n = name IN
-            [ok |-> (~WS[et].ext \/ WS[et].fs[j].ex), t |-> WS[et].fs[j].t]
+            [ok |-> WS[et].fs[j].vis, t |-> WS[et].fs[j].t]
 MethodIn(t, name) ==
   LET s == WS[t]
       ms == {i \in DOMAIN s.ms : s.ms[i].n = name} IN
   IF ms = {} THEN [ok |-> FALSE, t |-> "NONE", err |-> FALSE]
   ELSE LET i == CHOOSE i \in ms : TRUE IN
-       [ok |-> s.ms[i].callable /\ (~s.ext \/ s.ms[i].ex), t |-> s.ms[i].t, err |-> s.ms[i].err]
+       [ok |-> s.ms[i].callable /\ s.ms[i].vis, t |-> s.ms[i].t, err |-> s.ms[i].err]
 
 RECURSIVE ResolveFrom(_, _, _, _, _)
 \* returns [ok, term, t, err, call]; call = the last step is a call (not addressable)
@@ -192,10 +198,10 @@ ExplicitOutcome(i, dt) ==
 (* default matching of one destination member inside the current source struct *)
 SrcGetters(st, leaf) ==
   IF ~O.getter \/ O.rule # "name" \/ ~IsStructId(Deref(st)) THEN << >>
-  ELSE SelectSeq(WS[Deref(st)].ms, LAMBDA m : m.getter /\ (~WS[Deref(st)].ext \/ m.ex) /\ NameEq(leaf, m.n, O.case))
+  ELSE SelectSeq(WS[Deref(st)].ms, LAMBDA m : m.getter /\ m.vis /\ NameEq(leaf, m.n, O.case))
 SrcFields(st, leaf) ==
   IF O.rule # "name" \/ ~IsStructId(Deref(st)) THEN << >>
-  ELSE SelectSeq(WS[Deref(st)].fs, LAMBDA f : (~WS[Deref(st)].ext \/ f.ex) /\ NameEq(leaf, f.n, O.case))
+  ELSE SelectSeq(WS[Deref(st)].fs, LAMBDA f : f.vis /\ NameEq(leaf, f.n, O.case))
 
 \* a slice is copied into fresh storage (C16), which spells out its type; a slice whose type the generated
 \* package cannot name is not matched at all - assigned as a whole it would share its elements with the source
@@ -209,7 +215,7 @@ CanNest(dt, ct) == ByValueStruct(dt) /\ ByValueStruct(ct)
 Frame(path, dt, srcTerm, srcT) == [path |-> path, dt |-> dt, srcTerm |-> srcTerm, srcT |-> srcT]
 Children(f, ct, cterm) ==
   LET s == WS[f.dt]
-      kids == SelectSeq(s.fs, LAMBDA m : ~s.ext \/ m.ex) IN
+      kids == SelectSeq(s.fs, LAMBDA m : m.vis) IN
   [i \in 1..Len(kids) |-> Frame(Append(f.path, kids[i].n), kids[i].t, cterm, ct)]
 
 Put(path, alts, kind) == plan' = Append(plan, [path |-> Join(path), alts |-> alts, kind |-> kind])
